@@ -22,3 +22,7 @@ def run(ctx):
     refgraph.rule_backreference_keys(ctx, "C05.mentions_are_objects", prod)
     refgraph.rule_connect_sequence(ctx, "C05.disconnect_order")
     refgraph.rule_removal_helpers(ctx, "C05.removal_helpers")
+    # a group defined on several lines that another group lists: the merged
+    # line must take over the mentions of the line it replaces, or removing /
+    # renaming the group leaves the outer group as it was
+    refgraph.rule_group_merge_mentions(ctx, "C05.group_merge_mentions")
